@@ -600,6 +600,11 @@ func runC19(o *opts) error {
 	}
 	c19xSetTier(o.thorough())
 	rx := qRng(o.seed, 0xC19E) // its own stream: the ordinary collections do not depend on the extreme ones
+	rl := qRng(o.seed, 0xC19F) // its own stream too: the long sort specifications (c19long.go)
+	nLong := 2
+	if o.thorough() {
+		nLong = 24
+	}
 	for di := 0; di < nData+nExtreme; di++ {
 		extreme := di >= nData
 		var d *qDataset
@@ -639,18 +644,12 @@ func runC19(o *opts) error {
 			text := cq.text()
 			cases.line("%s", cq.caseLine())
 			impl.line("objectz=%s boltz=%s", objs.query(d, cq.order, text), c19Bolt(qb.db, store, text))
-			bump("sort_keys", strconv.Itoa(len(fs)))
-			bump("skip", qSkipClass(pg, int64(n)))
-			bump("limit", qLimitClass(pg, int64(n)))
-			bump("filter_root", f.kind)
-			for _, k := range []string{"null", "cmp", "has", "in", "btw", "sym", "N", "A", "O"} {
-				if f.hasKind(k) {
-					bump("filter_has", k)
-				}
-			}
+			c19Bump(bump, f, fs, pg, int64(n))
 		}
 		if extreme {
 			c19xEmit(rx, n, di == nData, nExtremeFilters, emit)
+			shuffle = rl
+			c19LongEmitPerCollection(rl, n, emit) // (L) as below
 			continue
 		}
 		// (1) the full paging grid: no filter / default order, and a null test under a sort
@@ -695,9 +694,50 @@ func runC19(o *opts) error {
 		for k := 0; k < 6; k++ {
 			emit(sfUnmodelled(r), qRandomSort(r, 2), grid[r.intn(len(grid))])
 		}
+		// (L) random sort specifications of 6..12 fields whose leading fields repeat a few columns (c19long.go);
+		// drawn, like the iterator orders of these queries, from a stream of their own
+		shuffle = rl
+		c19LongEmitPerCollection(rl, n, emit)
+	}
+	// (LT) collections made of tie blocks (rows agreeing on up to seven columns) under specifications with 1..11
+	// tying fields in front of the deciding one: a fixed collection with the systematic specifications + random ones
+	var ld *qDataset
+	var lstore boltz.ConfigurableStore
+	err = c19LongEmitC19(rl, nLong, func(d *qDataset) error {
+		var err error
+		if lstore, err = qb.load(d); err != nil {
+			return err
+		}
+		ld = d
+		cases.line("%s", d.line())
+		impl.line("D")
+		bump("rows", strconv.Itoa(len(d.rows)))
+		bump("collections", "tie-blocks")
+		return nil
+	}, func(f *sfNode, fs []qSortField, pg qPaging) {
+		cq := &c19Query{filter: f, q: qQuery{sort: fs, skip: pg.skip, limit: pg.limit, none: pg.none}, order: qShuffled(rl, len(ld.rows))}
+		text := cq.text()
+		cases.line("%s", cq.caseLine())
+		impl.line("objectz=%s boltz=%s", objs.query(ld, cq.order, text), c19Bolt(qb.db, lstore, text))
+		c19Bump(bump, f, fs, pg, int64(len(ld.rows)))
+	})
+	if err != nil {
+		return err
 	}
 	writeJSON(o.out, "stats.json", stats)
 	return nil
+}
+
+func c19Bump(bump func(group, key string), f *sfNode, fs []qSortField, pg qPaging, n int64) {
+	bump("sort_keys", strconv.Itoa(len(fs)))
+	bump("skip", qSkipClass(pg, n))
+	bump("limit", qLimitClass(pg, n))
+	bump("filter_root", f.kind)
+	for _, k := range []string{"null", "cmp", "has", "in", "btw", "sym", "N", "A", "O"} {
+		if f.hasKind(k) {
+			bump("filter_has", k)
+		}
+	}
 }
 
 func c19Replay(qb *qBolt, objs *c19Objects, path string, cases, impl *lineWriter) error {
